@@ -4,7 +4,7 @@ from lib.coqterm import cbytes, cbool, copt, clist, cpair, cN, cZ, hx, unhx
 
 ID = "C35"
 QUICK_N = 1500
-THOROUGH_N = 16000
+THOROUGH_N = 12000
 SHARD = 100
 COQ_PRELUDE = "From MV Require Import Model.Headers.\n"
 RULE = ("60% operation histories on two Headers objects (0-25 ops: getitem/in/setitem/del/get_all/set_all/add/insert/"
